@@ -291,6 +291,7 @@ def periodic_point_rule(ck, prog, rule="PERIODIC"):
         ck.note(f"{rule}: winter_verifier::evaluator::evaluate_constraints not available in this program; not decided")
         return
     ck.saw(f)
+    f = prog.inl(f)      # the periodic evaluation may live in a private helper
     n = 0
     for b, t in f.calls():
         for cid in f.closure_args(t):
